@@ -28,14 +28,16 @@ Tornado documents "spurious failures" near the limit); `unsat_and_end_same_quant
 exceeded and the stream end delivered together: real_error may be either cause.  The program stops
 at the first failed read (what later reads on a closed stream do belongs to C13).
 
-Sensitivity (quick tier, seed 1, scratch copies; all caught):
-  M1 _consume: ``del self._read_buffer[:loc]`` -> ``[:loc - 1]`` (duplicates a byte)   -> C11.wrong_data
-  M2 _find_read_pos: ``return loc + delimiter_len`` -> ``return loc``                   -> C11.wrong_data
-  M3 _finish_read: skip the _after_user_read_buffer restore (``= bytearray()``)         -> C11.wrong_data / read_never_completes
-  M4 _check_max_bytes: ``size >`` -> ``size >=``                                        -> C11.read_failed_but_satisfiable
-  M5 read_into: ``buf[:available_bytes] = ...`` copy dropped (leftover bytes lost)      -> C11.wrong_data
-  M6 _find_read_pos partial: ``min(self._read_bytes, size)`` -> ``size`` (returns > n)  -> C11.partial_length
-  M7 _read_to_buffer: FIN (bytes_read == 0) ignored instead of close()                  -> C11.read_never_completes
+Sensitivity (quick tier, seed 1, scratch copies of tornado/iostream.py; every mutant caught in < 3 s):
+  M1 _consume: ``del self._read_buffer[:loc]`` -> ``[: loc - 1]`` (a byte is duplicated)      -> C11.wrong_data
+  M2 _find_read_pos: ``return loc + delimiter_len`` -> ``return loc``                          -> C11.wrong_data
+  M3 _finish_read: _after_user_read_buffer restore skipped (``= bytearray()``)                 -> C11.wrong_data
+  M4 _check_max_bytes: ``size >`` -> ``size >=``                                               -> C11.read_failed_but_satisfiable
+  M5 read_into: copy of the partially buffered leftover into the caller buffer dropped         -> C11.wrong_data
+  M6 _find_read_pos: partial ``min(self._read_bytes, size)`` -> ``size`` (returns more than n) -> C11.wrong_data / partial_length
+  M7 _read_to_buffer: FIN (bytes_read == 0) no longer closes the stream                        -> C11.livelock
+  M8 _read_to_buffer: caller-buffer write offset off by one (overwrites the last byte)         -> C11.wrong_data
+  (M9 ``>= next_find_pos`` -> ``>`` survives: it only changes how often the buffer is scanned - equivalent.)
 """
 import collections
 
@@ -48,7 +50,7 @@ from vlib import vtime
 from vlib.memstream import MemoryIOStream
 
 PROPERTY = "C11"
-READY = False
+READY = True
 RULE = (
     "Hypothesis cases: stream of <=24 pieces (delimiter tokens + runs up to 1500 bytes, <=4 KiB) x "
     "read_chunk_size in {1,2,3,7,64,4096} x <=30 interleaved steps (feed burst of <=8 segments with sizes "
